@@ -498,8 +498,25 @@ func htmlOrigin(w *World, info *types.Info, f *FuncInfo, e ast.Expr, rawFns map[
 				return true
 			})
 			if selfRef {
-				if c, ok := unparen(rhs).(*ast.CallExpr); ok && funcIs(calleeOf(info, c), htmlTplPath, "JSEscapeString") {
-					whys = append(whys, "JS-escaped in place")
+				if c, ok := unparen(rhs).(*ast.CallExpr); ok && funcIs(calleeOf(info, c), htmlTplPath, "JSEscapeString") && len(c.Args) == 1 {
+					// ... of the variable itself (a conversion at most): what another call makes of it first
+					// (html.UnescapeString turns escaped data back into markup) is not the variable's content
+					arg := unparen(c.Args[0])
+					for {
+						cv, isCall := arg.(*ast.CallExpr)
+						if !isCall || len(cv.Args) != 1 {
+							break
+						}
+						if _, isConv := isConversion(info, cv); !isConv {
+							break
+						}
+						arg = unparen(cv.Args[0])
+					}
+					if id, isId := arg.(*ast.Ident); isId && info.Uses[id] == o {
+						whys = append(whys, "JS-escaped in place")
+						continue
+					}
+					okAll = false
 					continue
 				}
 				// part = transform(..., part): a function of the module that returns its operand, or a licensed
@@ -690,6 +707,38 @@ func checkC02(r *Run) {
 	tokenImmutableRule(r, "R9")
 	r.Rule("R10", "the rendered text reaches the caller as the evaluator produced it: every function of the root package that hands it on returns the very string a call further down returned (or a constant on failure), never something computed from it", 1)
 	outputPipelineRule(r, "R10")
+	r.Rule("R11", "a binding prints nothing: every success return of the let and the assignment evaluator gives back nil (inside a block the value of an expression statement is looked at: an exit object a template function handed back would end the block, at top level a let's value is written)", 2)
+	silentBindingRule(r, "R11")
+}
+
+// silentBindingRule: the value clause of C09.R3 on its own (what a binding
+// evaluates to is a matter of the output, not only of the scope).
+func silentBindingRule(r *Run, rule string) {
+	w := r.W
+	for _, n := range []string{"LetStatement", "AssignExpression"} {
+		f := w.evalMethod(n)
+		if f == nil {
+			r.Lost(rule, "evaluator for *ast."+n)
+			continue
+		}
+		info := f.Pkg.TypesInfo
+		ok, rets := true, 0
+		for _, ret := range returnsIn(f.Decl.Body) {
+			if len(ret.Results) != 2 {
+				continue
+			}
+			rets++
+			if isNilIdent(info, ret.Results[1]) && !isNilIdent(info, ret.Results[0]) {
+				ok = false
+				r.Bad(rule, f.Name(), "success return "+short(w.Fset, ret), w.Pos(ret.Pos()), "a let / an assignment must evaluate to nothing (nil): the value would be written (top level) or taken for the value of the enclosing block")
+			}
+		}
+		if rets == 0 {
+			r.Lost(rule, "returns of the evaluator for *ast."+n)
+		} else if ok {
+			r.Ok(rule, f.Name(), "yields nil on success", w.Pos(f.Decl.Pos()), fmt.Sprintf("%d return(s), the successful ones give (nil, nil)", rets))
+		}
+	}
 }
 
 func topLevelWriteRule(r *Run, rule string) {
